@@ -31,10 +31,18 @@ def features():
 
 def case_strategy(backend):
     sch = standard_schema(backend)
+    from vf.gen.metadata import simple_cpp_functions
 
+    fmd, funcs, _ = simple_cpp_functions()
+    # an opaque user C++ function that keeps its OWN state would be the user's business; ours are pure, so any
+    # schedule dependence still comes from the translator
     @st.composite
     def cases(draw):
-        q = draw(queries(sch, features(), fuel_range=(2, 3)))
+        use_funcs = draw(st.booleans())
+        feat = features()
+        if use_funcs:
+            feat.user_funcs = funcs
+        q = draw(queries(sch, feat, fuel_range=(2, 3), extra_md=fmd if use_funcs else ()))
         uses = q.uses or [(sch.colls[0].accessor, sch.colls[0].banks[0])]
         evs = draw(events_strategy(sch, uses, n_min=5, n_max=8, null_links=False))
         n = len(evs)
